@@ -45,6 +45,10 @@ pub struct Registry {
     /// bulk mode (amortisation push run): values are not tracked individually, ids cycle
     pub untracked: bool,
     pub bulk_counter: u32,
+    /// lowest / highest address of a value `Clone` was called on since `clone_src_n` was last zeroed
+    pub clone_src_min: usize,
+    pub clone_src_max: usize,
+    pub clone_src_n: u32,
 }
 
 impl Registry {
@@ -62,6 +66,7 @@ impl Registry {
             fault_fired: false,
             untracked: false,
             bulk_counter: 0,
+            clone_src_min: 0, clone_src_max: 0, clone_src_n: 0,
         }
     }
     fn err(&mut self, e: RegErr) {
@@ -204,6 +209,9 @@ pub fn reg_create(size: usize) -> u16 {
 }
 
 fn reg_clone(size: usize, src: &[u8]) -> u16 {
+    // where the value being cloned lives: `Clone` must run on the element itself, not on a bitwise stand-in
+    let at = src.as_ptr() as usize;
+    with_reg(|r| { if r.clone_src_n == 0 || at < r.clone_src_min { r.clone_src_min = at; } if r.clone_src_n == 0 || at > r.clone_src_max { r.clone_src_max = at; } r.clone_src_n += 1; });
     if size == 0 {
         with_reg(|r| { r.zst_clones += 1; r.zst_live += 1; });
         return 0;
